@@ -3,6 +3,7 @@
    entries (Model/MapIter.v).  Only statements; every proof is `exact <lemma>`. *)
 From Coq Require Import Permutation Sorted.
 From PV Require Import Lib.Bytes Model.MapIter Gen.MapRangeAudit Proofs.MapIter Proofs.MapIterAudit.
+From PV Require Import Model.CvsEntries Proofs.CvsEntries Gen.EnvReadAudit Proofs.EnvReadAudit.
 Import ListNotations.
 Open Scope N_scope.
 
@@ -131,6 +132,82 @@ Theorem C07_audit_classified :
   /\ count_class 5 maprange_classes = 0.
 Proof. exact audit_classified. Qed.
 Print Assumptions C07_audit_classified.
+
+(* ---------- the environment is not an input ---------- *)
+
+(* the static tie: every use of an API that reads the process environment (os.Getenv, time.Now, time.Local,
+   os/user, os.Getwd, math/rand, go statements, ... -- the list is in gen/c07env.go) in non-test code is
+   covered by the hand-classified audit/envreads.json.  The full statement "none of them reaches the
+   output" is false today: one use is a recorded finding (os.Getwd returns $PWD) *)
+Theorem C07_env_audit_refuted : ~ env_audit_full.
+Proof. exact env_audit_refuted. Qed.
+Print Assumptions C07_env_audit_refuted.
+
+(* ... and everything else is classified: all classes known (none new/changed/unjustified), exactly one finding *)
+Theorem C07_env_audit_partial :
+  forallb env_class_known envread_classes = true
+  /\ N.of_nat (length envread_classes) = envread_count
+  /\ env_count_class 6 envread_classes = 1
+  /\ (60 <=? envread_files_scanned) = true.
+Proof. exact env_audit_partial. Qed.
+Print Assumptions C07_env_audit_partial.
+
+(* util.go isLocallyModified, with the process environment (time zone, user, home, locale, cwd spelling,
+   umask) as an explicit argument: the decision is the same in every environment *)
+Theorem C07_locally_modified_env_independent : forall (e1 e2 : env) (es : entries) (name : str) (st : option Z),
+  is_locally_modified e1 es name st = is_locally_modified e2 es name st.
+Proof. exact locally_modified_env_independent. Qed.
+Print Assumptions C07_locally_modified_env_independent.
+
+(* what it decides: listed in CVS/Entries, and Stat failed or the timestamp differs from the mtime formatted in UTC *)
+Theorem C07_locally_modified_spec : forall (e : env) (es : entries) (name : str) (st : option Z),
+  is_locally_modified e es name st = true <->
+  exists ent, entries_lookup es name = Some ent /\
+    (st = None \/ exists s, st = Some s /\ ce_timestamp ent <> ansic_utc s).
+Proof. exact locally_modified_spec. Qed.
+Print Assumptions C07_locally_modified_spec.
+
+(* non-vacuity: the variant that formats the file time in the process's local time zone (seeded change
+   C07-r3m1) is NOT independent of the environment *)
+Theorem C07_locally_modified_local_refuted :
+  ~ (forall (e1 e2 : env) es name st, is_locally_modified_local e1 es name st = is_locally_modified_local e2 es name st).
+Proof. exact locally_modified_local_refuted. Qed.
+Print Assumptions C07_locally_modified_local_refuted.
+
+(* the UTC timestamp string determines the second, wherever the year has four digits (0000..9999): comparing
+   the strings (as the code does) is comparing the instants, so "unmodified" means "same mtime second" *)
+Theorem C07_ansic_utc_injective : forall s1 s2 : Z,
+  (ansic_lo <= s1 < ansic_hi)%Z -> (ansic_lo <= s2 < ansic_hi)%Z -> ansic_utc s1 = ansic_utc s2 -> s1 = s2.
+Proof. exact ansic_utc_injective. Qed.
+Print Assumptions C07_ansic_utc_injective.
+
+(* ... via an independent fixed-column parser (Proofs/CvsEntries.v) that inverts the formatter *)
+Theorem C07_ansic_parse_format : forall s : Z, (ansic_lo <= s < ansic_hi)%Z -> ansic_parse (ansic_utc s) = Some s.
+Proof. exact ansic_parse_format. Qed.
+Print Assumptions C07_ansic_parse_format.
+
+Theorem C07_ansic_utc_length : forall s : Z, (ansic_lo <= s < ansic_hi)%Z -> length (ansic_utc s) = 24%nat.
+Proof. exact ansic_utc_length. Qed.
+Print Assumptions C07_ansic_utc_length.
+
+(* the proleptic Gregorian calendar of the model: civil_from_days is inverted by days_from_civil, for every day *)
+Theorem C07_days_from_civil_from_days : forall d : Z, days_from_civil (civil_from_days d) = d.
+Proof. exact days_from_civil_from_days. Qed.
+Print Assumptions C07_days_from_civil_from_days.
+
+(* one CVS/Entries line: an entry iff it is "/" + five "/"-free fields separated by "/" *)
+Theorem C07_parse_entry_line_spec : forall (t : str) (e : cvs_entry),
+  parse_entry_line t = PrEntry e <->
+  exists f1 f2 f3 f4 f5, t = [47] ++ f1 ++ [47] ++ f2 ++ [47] ++ f3 ++ [47] ++ f4 ++ [47] ++ f5
+    /\ (~ In 47 f1 /\ ~ In 47 f2 /\ ~ In 47 f3 /\ ~ In 47 f4 /\ ~ In 47 f5)
+    /\ e = mk_cvs_entry f1 f2 f3 f4 f5.
+Proof. exact parse_entry_line_spec. Qed.
+Print Assumptions C07_parse_entry_line_spec.
+
+(* the map built from CVS/Entries + CVS/Entries.Log has duplicate-free keys and every key is its entry's name *)
+Theorem C07_load_entries_wf : forall el ll : list str, entries_wf (fst (load_entries el ll)).
+Proof. exact load_entries_wf. Qed.
+Print Assumptions C07_load_entries_wf.
 
 (* the hypotheses are satisfiable and the conclusions non-trivial *)
 Definition ex_map : gomap N := [([98], 2); ([97; 98], 1); ([97], 0); ([255], 3)].
